@@ -244,3 +244,315 @@ inline void applySkin(nifly::NifFile& nif, nifly::NiShape* shape, const SkinSpec
 }
 
 } // namespace vf
+
+// ---------------------------------------------------------------------------
+// Generated shapes of every geometry kind
+// ---------------------------------------------------------------------------
+namespace vf {
+
+struct GenShape {
+	nifly::NiShape* shape = nullptr;
+	std::string kind;	 // block type + variant, e.g. "NiTriShape+skin+strips-partitions"
+	size_t vi = 0;
+	Mesh mesh;
+	bool skinned = false;
+	SkinSpec skin;
+	bool strips = false;			// geometry stored as strips (triangle order not defined)
+	bool partitionStrips = false;
+	bool hasLockedNorm = false;
+	bool hasSegments = false;
+	bool segDirectOnParent = false; // FO4: triangles labelled directly on a segment that has sub-segments
+};
+
+struct GenShapeOpts {
+	bool allowSkin = true;
+	bool allowStrips = true;
+	bool allowSegments = true;
+	bool allowLockedNorm = true;
+	bool allowSpecialKinds = true; // dynamic, mesh-LOD, segmented, LOD
+	bool everyVertexWeighted = false;
+	uint32_t maxBones = 24;
+	MeshOpts mesh;
+};
+
+// triangles -> strips: consecutive runs are merged only trivially; each triangle its own strip,
+// sometimes two triangles sharing an edge are emitted as one 4-point strip
+inline std::vector<std::vector<uint16_t>> trisToStrips(const std::vector<nifly::Triangle>& tris) {
+	std::vector<std::vector<uint16_t>> strips;
+	for (auto& t : tris)
+		strips.push_back({t.p1, t.p2, t.p3});
+	return strips;
+}
+
+inline GenShape buildGenShape(nifly::NifFile& nif, Tape& t, size_t vi, const std::string& name, const GenShapeOpts& o) {
+	using namespace nifly;
+	GenShape g;
+	g.vi = vi;
+	const VersionCfg& ver = versions()[vi];
+	NiVersion nv = ver.ni();
+	MeshOpts mo = o.mesh;
+	if (ver.stream >= 130)
+		mo.coordRange = std::min(mo.coordRange, 64.0f);
+	g.mesh = genMesh(t, mo);
+	Mesh& m = g.mesh;
+	auto uv = m.uvs.empty() ? nullptr : &m.uvs;
+	auto nr = m.norms.empty() ? nullptr : &m.norms;
+	auto root = nif.GetRootNode();
+	auto& hdr = nif.GetHeader();
+
+	const uint8_t variant = o.allowSpecialKinds ? t.u8() % 8 : 0;
+	const bool le = ver.stream < 100; // OB / FO3 / SK
+	if (le && variant == 1 && o.allowStrips && !m.tris.empty()) {
+		// NiTriStrips + NiTriStripsData
+		auto data = std::make_unique<NiTriStripsData>();
+		data->Create(nv, &m.verts, &m.tris, uv, nr);
+		auto strips = trisToStrips(m.tris);
+		data->stripsInfo.points = strips;
+		data->stripsInfo.stripLengths.clear();
+		for (auto& s : strips) {
+			uint16_t l = static_cast<uint16_t>(s.size());
+			data->stripsInfo.stripLengths.push_back(l);
+		}
+		data->stripsInfo.hasPoints = true;
+		auto shape = std::make_unique<NiTriStrips>();
+		shape->name.get() = name;
+		shape->SetGeomData(data.get());
+		shape->DataRef()->index = hdr.AddBlock(std::move(data));
+		g.shape = shape.get();
+		root->childRefs.AddBlockRef(hdr.AddBlock(std::move(shape)));
+		g.kind = "NiTriStrips";
+		g.strips = true;
+	}
+	else if (ver.stream == 83 && (variant == 2 || variant == 3)) {
+		// BSSegmentedTriShape / BSLODTriShape on NiTriShapeData
+		auto data = std::make_unique<NiTriShapeData>();
+		data->Create(nv, &m.verts, &m.tris, uv, nr);
+		std::unique_ptr<NiTriBasedGeom> shape;
+		if (variant == 2) {
+			auto s = std::make_unique<BSSegmentedTriShape>();
+			std::vector<BSGeometrySegmentData> segs(2);
+			uint32_t nt = static_cast<uint32_t>(m.tris.size());
+			segs[0].index = 0;
+			segs[0].numTris = nt / 2;
+			segs[1].index = (nt / 2) * 3;
+			segs[1].numTris = nt - nt / 2;
+			s->SetSegments(segs);
+			shape = std::move(s);
+			g.kind = "BSSegmentedTriShape";
+		}
+		else {
+			auto s = std::make_unique<BSLODTriShape>();
+			s->level0 = static_cast<uint32_t>(m.tris.size());
+			shape = std::move(s);
+			g.kind = "BSLODTriShape";
+		}
+		shape->name.get() = name;
+		shape->SetGeomData(data.get());
+		shape->DataRef()->index = hdr.AddBlock(std::move(data));
+		g.shape = shape.get();
+		root->childRefs.AddBlockRef(hdr.AddBlock(std::move(shape)));
+	}
+	else if (ver.stream == 100 && variant >= 1 && variant <= 3) {
+		std::unique_ptr<BSTriShape> shape;
+		if (variant == 1) {
+			shape = std::make_unique<BSDynamicTriShape>();
+			g.kind = "BSDynamicTriShape";
+		}
+		else if (variant == 2) {
+			shape = std::make_unique<BSMeshLODTriShape>();
+			g.kind = "BSMeshLODTriShape";
+		}
+		else {
+			shape = std::make_unique<BSSubIndexTriShape>();
+			g.kind = "BSSubIndexTriShape(SSE)";
+		}
+		shape->Create(nv, &m.verts, &m.tris, uv, nr);
+		shape->SetSkinned(false);
+		if (variant == 2) {
+			auto lod = static_cast<BSMeshLODTriShape*>(shape.get());
+			lod->lodSize0 = static_cast<uint32_t>(m.tris.size());
+		}
+		if (variant == 3 && o.allowSegments) {
+			auto sits = static_cast<BSSubIndexTriShape*>(shape.get());
+			uint32_t nt = static_cast<uint32_t>(m.tris.size());
+			uint32_t nseg = 1 + t.u8() % 4;
+			std::vector<BSGeometrySegmentData> segs(nseg);
+			uint32_t start = 0;
+			for (uint32_t i = 0; i < nseg; i++) {
+				uint32_t cnt = i + 1 == nseg ? nt - start : t.range(0, nt - start);
+				segs[i].index = start * 3;
+				segs[i].numTris = cnt;
+				start += cnt;
+			}
+			sits->SetSegments(segs);
+			g.hasSegments = true;
+		}
+		shape->name.get() = name;
+		g.shape = shape.get();
+		root->childRefs.AddBlockRef(hdr.AddBlock(std::move(shape)));
+	}
+	else if (ver.stream >= 130 && (variant == 1 || variant == 2)) {
+		std::unique_ptr<BSTriShape> shape;
+		if (variant == 1) {
+			shape = std::make_unique<BSTriShape>();
+			g.kind = "BSTriShape";
+		}
+		else {
+			shape = std::make_unique<BSMeshLODTriShape>();
+			g.kind = "BSMeshLODTriShape";
+		}
+		shape->Create(nv, &m.verts, &m.tris, uv, nr);
+		shape->SetSkinned(false);
+		shape->name.get() = name;
+		g.shape = shape.get();
+		root->childRefs.AddBlockRef(hdr.AddBlock(std::move(shape)));
+	}
+	else {
+		g.shape = nif.CreateShapeFromData(name, &m.verts, &m.tris, uv, nr);
+		g.kind = g.shape ? g.shape->GetBlockName() : "null";
+		// FO4/FO76: BSSubIndexTriShape, optionally with FO4 segmentation
+		if (g.shape && ver.stream >= 130 && o.allowSegments && t.coin() && !m.tris.empty()) {
+			NifSegmentationInfo inf;
+			uint32_t nseg = 1 + t.u8() % 4;
+			int pid = 0;
+			std::vector<int> leafIds, parentIds;
+			for (uint32_t i = 0; i < nseg; i++) {
+				NifSegmentInfo s;
+				s.partID = pid++;
+				uint32_t nsub = t.u8() % 4;
+				for (uint32_t j = 0; j < nsub; j++) {
+					NifSubSegmentInfo ss;
+					ss.partID = pid++;
+					ss.userSlotID = 30 + t.u8() % 20;
+					ss.material = t.u8();
+					leafIds.push_back(ss.partID);
+					s.subs.push_back(ss);
+				}
+				if (nsub == 0)
+					leafIds.push_back(s.partID);
+				else
+					parentIds.push_back(s.partID);
+				inf.segs.push_back(s);
+			}
+			inf.ssfFile = "Meshes\\x.ssf";
+			const bool direct = !parentIds.empty() && t.chance(64);
+			std::vector<int> parts(m.tris.size());
+			for (auto& p : parts) {
+				if (direct && t.chance(80))
+					p = parentIds[t.range(0, static_cast<uint32_t>(parentIds.size() - 1))];
+				else
+					p = leafIds[t.range(0, static_cast<uint32_t>(leafIds.size() - 1))];
+			}
+			NifFile::SetShapeSegments(g.shape, inf, parts);
+			g.hasSegments = true;
+			g.segDirectOnParent = direct;
+			g.kind += "+segments";
+			// SetShapeSegments reorders the triangles: the mesh's reference order is the shape's
+			g.shape->GetTriangles(m.tris);
+		}
+	}
+	if (!g.shape)
+		return g;
+
+	// skin
+	const bool canSkin = o.allowSkin;
+	if (canSkin && !m.verts.empty() && m.verts.size() <= 3000 && t.coin()) {
+		g.skin = genSkin(t, static_cast<uint32_t>(m.verts.size()), o.maxBones, 6, o.everyVertexWeighted);
+		applySkin(nif, g.shape, g.skin);
+		g.skinned = true;
+		g.kind += "+skin";
+		// strips inside partitions (LE only)
+		if (le && o.allowStrips && t.chance(64)) {
+			auto si = hdr.GetBlock<NiSkinInstance>(g.shape->SkinInstanceRef());
+			auto sp = si ? hdr.GetBlock(si->skinPartitionRef) : nullptr;
+			if (sp) {
+				for (auto& p : sp->partitions) {
+					if (p.triangles.empty())
+						continue;
+					p.strips = trisToStrips(p.triangles);
+					p.numStrips = static_cast<uint16_t>(p.strips.size());
+					p.stripLengths.clear();
+					for (auto& s : p.strips)
+						p.stripLengths.push_back(static_cast<uint16_t>(s.size()));
+					p.triangles.clear();
+					p.trueTriangles.clear();
+					p.hasFaces = true;
+				}
+				sp->triParts.clear();
+				g.partitionStrips = true;
+				g.kind += "+strips-partitions";
+			}
+		}
+	}
+	// LOCKEDNORM list
+	if (o.allowLockedNorm && !m.verts.empty() && t.chance(64)) {
+		auto ed = std::make_unique<NiIntegersExtraData>();
+		ed->name.get() = "LOCKEDNORM";
+		uint32_t k = 1 + t.u8() % 8;
+		std::set<uint32_t> idx;
+		for (uint32_t i = 0; i < k; i++)
+			idx.insert(t.range(0, static_cast<uint32_t>(m.verts.size() - 1)));
+		for (auto i : idx) {
+			uint32_t v = i;
+			ed->integersData.push_back(v);
+		}
+		nif.AssignExtraData(g.shape, std::move(ed));
+		g.hasLockedNorm = true;
+		g.kind += "+lockednorm";
+	}
+	// vertex colours sometimes
+	if (t.chance(64) && !m.verts.empty()) {
+		std::vector<Color4> cols(g.shape->GetNumVertices());
+		for (size_t i = 0; i < cols.size(); i++)
+			cols[i] = Color4(((i * 7) % 256) / 255.0f, ((i * 13) % 256) / 255.0f, ((i * 29) % 256) / 255.0f, 1.0f);
+		nif.SetColorsForShape(g.shape, cols);
+		g.kind += "+colors";
+	}
+	return g;
+}
+
+// sorted unique index subset D of [0, n): single / prefix / suffix / random / all
+inline std::vector<uint16_t> genDeletion(Tape& t, uint32_t n, std::string& cls) {
+	std::vector<uint16_t> d;
+	if (n == 0)
+		return d;
+	uint8_t how = t.u8() % 6;
+	switch (how) {
+		case 0:
+			cls = "single";
+			d.push_back(static_cast<uint16_t>(t.range(0, n - 1)));
+			break;
+		case 1: {
+			cls = "prefix";
+			uint32_t k = 1 + t.range(0, n - 1);
+			for (uint32_t i = 0; i < k; i++)
+				d.push_back(static_cast<uint16_t>(i));
+			break;
+		}
+		case 2: {
+			cls = "suffix";
+			uint32_t k = 1 + t.range(0, n - 1);
+			for (uint32_t i = n - k; i < n; i++)
+				d.push_back(static_cast<uint16_t>(i));
+			break;
+		}
+		case 3:
+			cls = "all";
+			for (uint32_t i = 0; i < n; i++)
+				d.push_back(static_cast<uint16_t>(i));
+			break;
+		default: {
+			cls = "random";
+			uint8_t density = t.u8();
+			for (uint32_t i = 0; i < n; i++)
+				if (t.u8() <= density)
+					d.push_back(static_cast<uint16_t>(i));
+			if (d.empty())
+				d.push_back(static_cast<uint16_t>(t.range(0, n - 1)));
+			break;
+		}
+	}
+	return d;
+}
+
+} // namespace vf
